@@ -14,6 +14,7 @@ Monitors
 from __future__ import annotations
 
 import asyncio
+import copy
 import itertools
 import logging
 import random
@@ -38,7 +39,7 @@ ASSUMPTIONS = [
     "which of several same-type instances supplied by the same block is returned is unspecified (any of them is accepted)",
     "equality, not identity, of the returned instance is judged; ctx.updated outside any scope is not generated",
 ]
-MINIMUMS = {"monitor:lookup": 50000, "monitor:lookup-default": 50000, "shadowing_lookups": 3000, "explicit_default_wins": 3000, "missing_state": 3000, "disposable_supplied": 300}
+MINIMUMS = {"monitor:lookup": 50000, "monitor:lookup-default": 50000, "shadowing_lookups": 3000, "explicit_default_wins": 3000, "missing_state": 3000, "disposable_supplied": 300, "programs_with_prepared_scopes": 300}
 JOBS = {"quick": 4, "thorough": 16}
 LEVEL_TEXT = (
     "All forests of up to 3 blocks with every kind assignment and every supplied-subset assignment over {D1, R1} (quick) / {D1, R1, SubD1} (thorough) are executed and "
@@ -88,6 +89,28 @@ def exhaustive_programs(types: list[str]):  # noqa: ANN201
                     prog = build(forest, False)
                     if ok:
                         yield prog
+
+
+def prepare_some(prog: list[dict[str, Any]], rng: random.Random, p: float = 0.35) -> bool:
+    """some nested scope objects are created early - at the very start of the program (outside every scope) or at the start of
+    their outermost ancestor's body - and entered where the block stands: a scope binds to the state current where it is ENTERED"""
+    changed = False
+
+    def walk(steps: list[dict[str, Any]], top: list[dict[str, Any]] | None, depth: int) -> None:
+        nonlocal changed
+        for s in list(steps):
+            if s["op"] != "block":
+                continue
+            anchor = top if top is not None else s["body"]
+            if depth >= 1 and s["kind"] in ("ascope", "sscope") and not s.get("disposables") and rng.random() < p:
+                s["prepared"] = True
+                prep = {"op": "prepare", "block": {k: s[k] for k in ("kind", "name", "supply")}}
+                (prog if rng.random() < 0.5 else anchor).insert(0, prep)
+                changed = True
+            walk(s["body"], anchor, depth + 1)
+
+    walk(prog, None, 0)
+    return changed
 
 
 def run_program(R: Recorder, loop: Any, prog: list[dict[str, Any]], rng: random.Random, capture_holder: dict[str, Any]) -> World:
@@ -214,9 +237,17 @@ def run(R: Recorder, tier: str, seed: int, shard: int, nshards: int) -> None:
         for i, p in enumerate(exhaustive_programs(types)):
             if i % nshards == shard:
                 yield p
+                if i % 3 == 0:
+                    q = copy.deepcopy(p)
+                    if prepare_some(q, random.Random(i), p=0.7):
+                        R.count("programs_with_prepared_scopes")
+                        yield q
         for _ in range(RANDOM[tier] // nshards):
             g = Gen(rng)
-            yield g.program(max_blocks=rng.choice([3, 6, 12]), max_depth=6)
+            prog = g.program(max_blocks=rng.choice([3, 6, 12]), max_depth=6)
+            if rng.random() < 0.4 and prepare_some(prog, rng):
+                R.count("programs_with_prepared_scopes")
+            yield prog
 
     run_batch(R, progs(), rng)
 
